@@ -1,6 +1,7 @@
 #include "sim/runner.h"
 #include "worlds/engine_world.h"
 #include "worlds/queue_world.h"
+#include "worlds/bs_world.h"
 
 namespace runner {
 World* makeWorld(const std::string& property) {
@@ -8,6 +9,8 @@ World* makeWorld(const std::string& property) {
       property == "C06" || property == "C07")
     return wa::makeEngineWorld(property);
   if (property == "C16") return wc::makeQueueWorld();
+  if (property == "C08" || property == "C09" || property == "C10" || property == "C11" || property == "C12" || property == "C14")
+    return wb::makeBsWorld(property);
   return nullptr;
 }
 } // namespace runner
